@@ -41,3 +41,21 @@ pub open spec fn upper_hint_from(i: Interval, b: Bitvector, h: Bitvector) -> boo
     &&& ((i.stride == 0 || i.w() > 64) ==> h == b)
     &&& ((i.stride > 0 && i.w() <= 64) ==> on_stride(i.stride, h.s() - i.start.s()) && b.s() - h.s() < i.stride)
 }
+
+pub open spec fn opt_min(h: Option<Bitvector>, x: int) -> int { if h is Some && h->Some_0.s() < x { h->Some_0.s() } else { x } }
+pub open spec fn opt_max(h: Option<Bitvector>, x: int) -> int { if h is Some && h->Some_0.s() > x { h->Some_0.s() } else { x } }
+
+/// distance between the lowest and the highest bound / widening hint of two domains
+pub open spec fn merge_span(a: IntervalDomain, b: IntervalDomain) -> int {
+    let lo0 = if a.interval.start.s() <= b.interval.start.s() { a.interval.start.s() } else { b.interval.start.s() };
+    let hi0 = if a.interval.end.s() >= b.interval.end.s() { a.interval.end.s() } else { b.interval.end.s() };
+    opt_max(a.widening_upper_bound, opt_max(b.widening_upper_bound, hi0)) - opt_min(a.widening_lower_bound, opt_min(b.widening_lower_bound, lo0))
+}
+
+/// hints produced by update_widening_*: strictly outside the interval and (<= 8 bytes) on its stride
+pub open spec fn hints_outside(d: IntervalDomain) -> bool {
+    &&& d.widening_lower_bound is Some ==> d.widening_lower_bound->Some_0.s() < d.interval.start.s()
+            && ((d.interval.stride > 0 && d.interval.w() <= 64) ==> on_stride(d.interval.stride, d.widening_lower_bound->Some_0.s() - d.interval.start.s()))
+    &&& d.widening_upper_bound is Some ==> d.widening_upper_bound->Some_0.s() > d.interval.end.s()
+            && ((d.interval.stride > 0 && d.interval.w() <= 64) ==> on_stride(d.interval.stride, d.widening_upper_bound->Some_0.s() - d.interval.start.s()))
+}
